@@ -245,6 +245,9 @@ func Worker(t *testing.T, worldName, profile, property, tier string, base uint64
 		seed := runSeed(base, idx)
 		r := simrt.NewRand(seed)
 		sc := w.Generate(r, profile, tier)
+		if f, ok := sc.(interface{ SetFine(bool) }); ok {
+			f.SetFine(r.Bool(10)) // (world A draws this itself, per profile)
+		}
 		stick := []int{0, 30, 60, 80, 90, 95, 98}[r.Intn(7)]
 		out := runOne(sc, seed, idx, 0, stick)
 		if ex, ok := w.(Expander); ok && !stopAll {
